@@ -385,6 +385,8 @@ def run_shard(shard, rec):
     fx, log = make_env(P, shard["servertype"])
     try:
         for n in range(shard["n"]):
+            if rec.should_stop(12):
+                break
             c = gen_case(r, shard["i"] * 100000 + n)
             run_case(fx, log, c, rec, r)
             if not fx.loop_alive():
